@@ -101,6 +101,7 @@ func vpStorageWF(ms *MemoryStorage, label string) {
 
 func vpStorageState(maxN int) (*MemoryStorage, vpAbsLog) {
 	k := &vpConds{}
+	vpConcreteBase = false
 	ms := vpStorage(maxN, k, false)
 	k.assume()
 	return ms, vpAbsOf(ms)
